@@ -13,7 +13,8 @@ CHECK = {
                      "ClusterVerif/Model/C14Crash.lean", "ClusterVerif/Spec/C14Crash.lean", "ClusterVerif/Lemmas/C14Crash.lean",
                      "ClusterVerif/Model/C14Start.lean", "ClusterVerif/Spec/C14Start.lean", "ClusterVerif/Lemmas/C14Start.lean",
                      "ClusterVerif/Model/C14Snaps.lean", "ClusterVerif/Spec/C14Snaps.lean", "ClusterVerif/Lemmas/C14Snaps.lean",
-                     "ClusterVerif/Model/C14Damage.lean", "ClusterVerif/Spec/C14Damage.lean", "ClusterVerif/Lemmas/C14Damage.lean"],
+                     "ClusterVerif/Model/C14Damage.lean", "ClusterVerif/Spec/C14Damage.lean", "ClusterVerif/Lemmas/C14Damage.lean",
+                     "ClusterVerif/Model/C14Crdt.lean", "ClusterVerif/Spec/C14Crdt.lean"],
     "rule": "pins: (pinset of 0-40 generated pins over all types/options, prior content of the target, stream damage) through "
             "Marshal/Unmarshal, SnapshotSave/OfflineState, raft and crdt state-manager export/import (and a started Raft peer on some); "
             "rot: (retention, pre-existing folder set with gaps/outside the window, 1-14 clean/save/mkdir/reconfigure operations) on real folders; "
